@@ -2,6 +2,8 @@
 //
 //	O<n> / E<n>  write n units to stdout / stderr (unit = $VCHILD_UNIT bytes, default 32768)
 //	B<n>         write n units to stdout and n units to stderr concurrently
+//	U<n> / V<n>  write n units of non-ASCII text to stdout / stderr: one letter, then two-byte characters, so that
+//	             every block boundary falls inside a character
 //	co / ce      close stdout / stderr
 //	p            pause 20 ms (adds schedule diversity only; no oracle depends on it)
 //	x<k>         exit with status k
@@ -49,6 +51,15 @@ func main() {
 				f = os.Stderr
 			}
 			f.Write(buf) // errors (closed descriptor) are ignored on purpose
+		case op[0] == 'U' || op[0] == 'V':
+			n, _ := strconv.Atoi(op[1:])
+			buf := append([]byte{byte('a' + wi%26)}, []byte(strings.Repeat("\u00e9", n*unit/2))...)
+			wi++
+			f := os.Stdout
+			if op[0] == 'V' {
+				f = os.Stderr
+			}
+			f.Write(buf)
 		case op[0] == 'B':
 			// both streams at the same time
 			n, _ := strconv.Atoi(op[1:])
